@@ -232,18 +232,24 @@ fn main() {
         out.count("creation_attempts_during_wait", attempts);
     }
     // racing creations: exactly one winner, the others get a lock failure, and the lock is free again afterwards
-    let races = if thorough { 200 } else { 40 };
+    let races = if thorough { 3000 } else { 800 };
     for it in 0..races {
         let tmp = tempfile::tempdir().unwrap();
-        let index = if it % 2 == 0 { Index::create(RamDirectory::create(), schema.clone(), IndexSettings::default()).unwrap() }
+        let index = if it % 4 != 3 { Index::create(RamDirectory::create(), schema.clone(), IndexSettings::default()).unwrap() }
                     else { Index::create(MmapDirectory::open(tmp.path()).unwrap(), schema.clone(), IndexSettings::default()).unwrap() };
         let nthreads = 2 + (it % 7);
-        let barrier = Arc::new(Barrier::new(nthreads));
+        // a spinning barrier: all threads leave it within a few hundred nanoseconds of each other
+        let ready = Arc::new(std::sync::atomic::AtomicUsize::new(0));
+        let _ = Barrier::new(1);
         let mut hs = vec![];
         for _ in 0..nthreads {
             let ix = index.clone();
-            let b = barrier.clone();
-            hs.push(std::thread::spawn(move || { b.wait(); ix.writer_with_num_threads::<TantivyDocument>(1, 15_000_000) }));
+            let b = ready.clone();
+            hs.push(std::thread::spawn(move || {
+                b.fetch_add(1, std::sync::atomic::Ordering::SeqCst);
+                while b.load(std::sync::atomic::Ordering::SeqCst) < nthreads { std::hint::spin_loop(); }
+                ix.writer_with_num_threads::<TantivyDocument>(1, 15_000_000)
+            }));
         }
         let results: Vec<_> = hs.into_iter().map(|h| h.join()).collect();
         let oks = results.iter().filter(|r| matches!(r, Ok(Ok(_)))).count();
